@@ -23,6 +23,8 @@ CONSTANTS W, B,        \* receive window, accept backlog
           DlEnds,      \* endpoints that may issue wstart / rstart / setwd / setrd
           PreEst,      \* TRUE: start with stream 1 opened by endpoint 0 and accepted by endpoint 1
           BlockOnRoom, \* TRUE: a Write that finds no write buffer blocks (cap = WireCap) instead of not being issued
+          IdTop,       \* TRUE: MaxId stands for the end of the identifier space (the driver positions the real
+                       \*   multiplexers there); FALSE: MaxId merely bounds the number of streams
           TrackKinds   \* kinds of state-preserving calls remembered in the view (so that exported behaviours contain them)
 
 VARIABLES st, ops, hist, kinds
@@ -32,6 +34,7 @@ view == <<st, ops, kinds>>
 MinusOne == -1      \* cfg files cannot write negative numbers: `W <- MinusOne` configures a negative window
 Byte(e, s, i) == 100 * s + 10 * e + i
 Step(op, e, s, n) == [op |-> op, e |-> e, s |-> s, n |-> n]
+KE(name, e) == IF e = 0 THEN name \o "0" ELSE name \o "1"
 Room(e) == Len(st.wire[e]) < WireCap
 \* kinds: calls that leave the protocol state unchanged would otherwise never appear in an exported behaviour
 \*   "zr" zero-length read with data buffered   "zw" zero-length write on a writable stream
@@ -50,6 +53,9 @@ Init == /\ st = (IF PreEst THEN Established ELSE Base)
         /\ hist = (IF PreEst THEN EstablishedHist ELSE <<>>)
         /\ ops = 0 /\ kinds = {}
 
+\* OpenStream after exhaustion fails at once ("openx" in Acts; kind "xo<e>" keeps it in the export)
+OpenExhausted(e) == /\ "openx" \in Acts /\ e \in Openers /\ Exhausted(st, e)
+                    /\ ApiK(st, Step("open", e, 0, 0), {KE("xo", e)})
 Open(e) == /\ "open" \in Acts /\ e \in Openers /\ CanOpen(st, e)
            /\ IF OpenRaceBug THEN Api(DoOpenAlloc(st, e), Step("open", e, st.nextOut[e], 0))
               ELSE Room(e) /\ Api(DoOpen(st, e), Step("open", e, st.nextOut[e], 0))
@@ -74,7 +80,6 @@ WouldSend(e, s, n) == n > 0 /\ WriteErr(st, e, s) = "" /\ ~st.wx[e][s] /\ st.wt[
 \* kinds "wfollow"/"rfollow": the stream is used again after a blocked call was ended by a deadline and the
 \* deadline was cleared (a state-preserving continuation on a conforming implementation)
 \* (kinds carry the endpoint: "wsp0", "wfollow1", ...)
-KE(name, e) == IF e = 0 THEN name \o "0" ELSE name \o "1"
 WFollow(e, s) == IF kinds \cap {KE("wsp", e), KE("wss", e)} # {} /\ ~st.wx[e][s] THEN {KE("wfollow", e)} ELSE {}
 RFollow(e, s) == IF kinds \cap {KE("rsp", e), KE("rss", e)} # {} /\ ~st.rx[e][s] THEN {KE("rfollow", e)} ELSE {}
 
@@ -136,6 +141,7 @@ NFlush == Can /\ \E e \in E : Flush(e)
 NOpenReturn == Can /\ \E e \in E, s \in Ids : OpenReturn(e, s)
 NOpenSend == Can /\ \E e \in E, s \in Ids : OpenSend(e, s)
 NOpen == More /\ \E e \in E : Open(e)
+NOpenExhausted == More /\ \E e \in E : OpenExhausted(e)
 NAccept == More /\ \E e \in E : Accept(e)
 NCancelOpen == More /\ \E e \in E, s \in Ids : CancelOpen(e, s)
 NCloseWrite == More /\ \E e \in E, s \in Ids : CloseWrite(e, s)
@@ -150,7 +156,7 @@ NSetWD == More /\ \E e \in E, s \in Ids, m \in Modes : SetWD(e, s, m)
 NSetRD == More /\ \E e \in E, s \in Ids, m \in Modes : SetRD(e, s, m)
 Next == \/ NRecv \/ NFlush \/ NOpenReturn \/ NOpenSend \/ NOpen \/ NAccept \/ NCancelOpen
         \/ NCloseWrite \/ NClose \/ NWrite \/ NRead
-        \/ NWStart \/ NRStart \/ NWEnd \/ NREnd \/ NSetWD \/ NSetRD
+        \/ NOpenExhausted \/ NWStart \/ NRStart \/ NWEnd \/ NREnd \/ NSetWD \/ NSetRD
 
 Spec == Init /\ [][Next]_vars
 
@@ -172,5 +178,5 @@ Terminal ==
   /\ \A e \in E, s \in Ids : ~(OpenPending(st, e, s) /\ OpenOutcome(st, e, s) # "pending")
   /\ \A e \in E, s \in Ids : ~st.wb[e][s].fin /\ ~st.rb[e][s].fin
 Export == (DoExport /\ Terminal) =>
-  PrintT(<<"BEHAVIOUR", ToJson([w |-> W, b |-> B, steps |-> hist, kinds |-> SetSeqS(kinds)])>>)
+  PrintT(<<"BEHAVIOUR", ToJson([w |-> W, b |-> B, steps |-> hist, kinds |-> SetSeqS(kinds), idtop |-> IF IdTop THEN MaxId ELSE 0])>>)
 ====
